@@ -372,6 +372,13 @@ class DisjunctionMaxMatcher(UnionMatcher):
             return self.b.score()
         elif not self.b.is_active():
             return self.a.score()
+
+        id_a = self.a.id()
+        id_b = self.b.id()
+        if id_a < id_b:
+            return self.a.score()
+        elif id_b < id_a:
+            return self.b.score()
         else:
             return max(self.a.score(), self.b.score())
 
